@@ -98,12 +98,23 @@ def main(tier):
     if not rv.invariant_violated:
         raise V.ToolError("vacuity: no capturing rename in the model space")
     rep.notes.append("MC_Scopes: %d programs; FreshRenameIsCaptureFree holds, capturing renames to an existing name exist (witness)" % r.distinct)
-    asts = D.tlc_cases(r)
+    mm = os.path.join(SPEC, "MC_Macros.tla")
+    r2 = V.tlc(mm, cfg=os.path.join(SPEC, "MC_Macros.cfg"), workers=4, timeout=1200, tag="C15-mm")
+    rep.add_tlc(r2)
+    if r2.invariant_violated:
+        rep.violations.append({"why": "design level: MC_Macros invariant violated", "replay": {"tlc_output": V.tail(r2.out, 60)}, "id": "MC_Macros"})
+        return rep.finish()
+    if r2.rc != 0 or "Error:" in r2.out:
+        raise V.ToolError("MC_Macros failed:\n" + V.tail(r2.out, 40))
+    rep.notes.append("MC_Macros: %d programs with macros/parameters and if-else branches: ParamsApart, CallsDenoteMacros, FreshRenameIsCaptureFree hold" % r2.distinct)
+    asts, masts = D.tlc_cases(r), D.tlc_cases(r2)
     rnd = V.rng("C15")
     wd = V.fresh_dir("C15")
     rnd.shuffle(asts)
+    rnd.shuffle(masts)
     if tier == "quick":
-        asts = asts[:70]
+        asts, masts = asts[:50], masts[:40]
+    asts = asts + masts
     with ThreadPoolExecutor(max_workers=6) as ex:
         projs = [p for p in ex.map(lambda i: D.project_from_ast(asts[i], mos, os.path.join(wd, "t%04d" % i), 1000 + i), range(len(asts))) if p["ok"]]
     gen, tries = D.make_projects(rnd, 70 if tier == "quick" else 600, mos, wd, "g")
@@ -157,14 +168,14 @@ def main(tier):
     rep.cov["traces_validated_against_impl"] = len(recs)
     rep.cov["evaluations"] = len(recs)
     rep.cov["distinct_nontrivial"] = len({(json.dumps(x["origText"]), x["oid"], x["new"]) for x in recs if x["offered"]})
-    rep.cov["rule"] = ("(project, identifier occurrence, new name) triples on error-free projects (TLC-enumerated scope skeletons + seeded generated projects, every third with an import): "
+    rep.cov["rule"] = ("(project, identifier occurrence, new name) triples on error-free projects (TLC-enumerated scope skeletons and macro/if-else programs + seeded generated projects with macros, parameters, .if/else with either branch taken, every third with an import): "
                        "prepareRename + rename on the real server, edit applied per LSP, edited project rebuilt with `mos build`, renamed back; new names: fresh and a name used elsewhere; "
                        "distinct = distinct offered triples")
     rep.cov["offered"] = sum(1 for x in recs if x["offered"])
     for x in recs[:3]:
         rep.sample({"text": x["origText"][-1]["s"], "oid": x["oid"], "new": x["new"], "edits": x["edits"]})
     rep.assumptions += ["when the new name collides with or captures another binding (CaptureFree false in the model) only the edit set is judged",
-                        "macros, string interpolation and `import .. as` are not generated yet"]
+                        "macro bodies use their parameters only; string interpolation and `import .. as` are not generated yet"]
     byid = {x["id"]: x for x in recs}
     for v in verdicts:
         x = byid.get(v["id"])
